@@ -329,7 +329,14 @@ def _r1(chk, repo):
             seen = {(pn(exg.expand(t_.ast, t_, stop=frozenset({kw_, cv_}))), lab_) for t_, lab_ in g.guards_of(gn)}
             flip = {"T": "F", "F": "T"}
             seen |= {(tx_[3:] if tx_.startswith("not") and not tx_[3:4].isalnum() else None, flip[lab_]) for tx_, lab_ in seen}
-            if not any(guarded(g, gn, p_, lab) for p_, lab in GUARDS) and not any((pn(p_), lab) in seen for p_, lab in GUARDS):
+            # ... or any spelling of "the keywords that are neither conditioning variables nor the positional main parameter" (nested comprehensions,
+            # a loop that collected them) tested for emptiness
+            sem = False
+            for t_, lab_ in g.guards_of(gn):
+                core = _emptiness_core(exg.expand(t_.ast, t_, stop=frozenset({kw_, cv_})))
+                if core is not None and lab_ != core[1] and _excluded(core[0], kw_, cv_) >= {"cv", "main"}:
+                    sem = True
+            if not sem and not any(guarded(g, gn, p_, lab) for p_, lab in GUARDS) and not any((pn(p_), lab) in seen for p_, lab in GUARDS):
                 dropped.append(f"`{unparse(c)[:70]}` is reached with keywords besides the conditioning variables still in `{kw_}`")
         chk.decide("C01-R1", f"{dist.qual}.logd/nothing-dropped", not dropped and bool(inner), bool(inner), site(repo, f),
                    "the positional main parameter is evaluated alone only when no other keyword is left over",
@@ -398,6 +405,66 @@ def _r1_joint_unknown(chk, repo):
     chk.decide("C01-R1", f"{jd.qual}._condition/unknown-names", ok, rec, site(repo, cnd), "a keyword no factor accepts is refused before conditioning",
                "conditioning a joint distribution silently ignores a keyword that none of its factors accepts (a misspelt or unknown variable): after fixing "
                "all real variables the result evaluates to a number although an unknown variable was given", cnd)
+
+
+def _emptiness_core(e):
+    """(X, label of the edge on which X is NON-empty) for a test `0 < len(X)`, `len(X) != 0`, `len(X) == 0`, `X`, `not X`; else None"""
+    lab = "T"
+    while isinstance(e, ast.UnaryOp) and isinstance(e.op, ast.Not):
+        e, lab = e.operand, ("F" if lab == "T" else "T")
+    if isinstance(e, ast.Compare) and len(e.ops) == 1:
+        l_, r_ = e.left, e.comparators[0]
+        zero = lambda x: isinstance(x, ast.Constant) and x.value == 0
+        ln = lambda x: isinstance(x, ast.Call) and call_name(x) == "len" and len(x.args) == 1
+        op = type(e.ops[0])
+        if zero(l_) and ln(r_) and op in (ast.Lt, ast.NotEq):
+            return r_.args[0], lab
+        if ln(l_) and zero(r_) and op in (ast.Gt, ast.NotEq):
+            return l_.args[0], lab
+        if (zero(l_) and ln(r_) or ln(l_) and zero(r_)) and op is ast.Eq:
+            return (r_ if ln(r_) else l_).args[0], ("F" if lab == "T" else "T")
+        return None
+    if isinstance(e, (ast.ListComp, ast.SetComp, ast.GeneratorExp, ast.Name, ast.BinOp, ast.Call)):
+        return e, lab
+    return None
+
+
+def _excluded(e, kw, cv):
+    """what a collection of keyword names built from `kw` leaves out: {"cv"} (the conditioning variables) and/or {"main"} ('_main_parameter'); the
+    collection is `kw` / `kw.keys()` filtered by comprehension conditions (possibly nested), or a set difference; empty set when not recognised"""
+    if pn(e) in (kw, f"{kw}.keys()") or (isinstance(e, ast.Call) and call_name(e) in ("set", "list", "sorted") and len(e.args) == 1 and pn(e.args[0]) in (kw, f"{kw}.keys()")):
+        return set()
+    if isinstance(e, ast.Call) and call_name(e) in ("set", "list", "sorted") and len(e.args) == 1:
+        return _excluded(e.args[0], kw, cv)
+    if isinstance(e, (ast.ListComp, ast.SetComp, ast.GeneratorExp)) and len(e.generators) == 1 and isinstance(e.generators[0].target, ast.Name) \
+            and isinstance(e.elt, ast.Name) and e.elt.id == e.generators[0].target.id:
+        v = e.elt.id
+        out = set(_excluded(e.generators[0].iter, kw, cv))
+        conds = []
+        for c in e.generators[0].ifs:
+            conds += list(c.values) if isinstance(c, ast.BoolOp) and isinstance(c.op, ast.And) else [c]
+        for c in conds:
+            if isinstance(c, ast.Compare) and len(c.ops) == 1 and pn(c.left) == v:
+                if isinstance(c.ops[0], ast.NotIn) and pn(c.comparators[0]) == cv:
+                    out.add("cv")
+                elif isinstance(c.ops[0], ast.NotEq) and isinstance(c.comparators[0], ast.Constant) and c.comparators[0].value == "_main_parameter":
+                    out.add("main")
+                else:
+                    return set()          # another filter: not the plain leftovers
+            else:
+                return set()
+        return out
+    if isinstance(e, ast.BinOp) and isinstance(e.op, ast.Sub):
+        out = set(_excluded(e.left, kw, cv))
+        r = e.right
+        if isinstance(r, ast.Call) and call_name(r) == "set" and len(r.args) == 1 and pn(r.args[0]) == cv:
+            out.add("cv")
+        elif isinstance(r, ast.Set) and len(r.elts) == 1 and isinstance(r.elts[0], ast.Constant) and r.elts[0].value == "_main_parameter":
+            out.add("main")
+        else:
+            return set()
+        return out
+    return set()
 
 
 def _leftover_edge(ex, t):
